@@ -358,3 +358,31 @@ package thrift
 //@   ensures len(buf) >= 8 && hdr & 0xffff0000 == 0x80010000 && nsz >= 0 && len(buf) < 12+nsz ==> err == errReadMessage && l == 0
 //@   ensures len(buf) >= 8 && hdr & 0xffff0000 == 0x80010000 && nsz >= 0 && len(buf) >= 12+nsz ==>
 //@           err == nil && l == 12+nsz && typeID == int32(hdr & 0xffff) && len(name) == nsz && eqbytes(name, 0, buf, 8, nsz) && seq == int32(vs.BE32(buf, 8+nsz))
+
+// ---- no-copy writers ----
+// Ghost view of a NocopyWriter: how many pieces were handed over, and the last piece.
+
+//@ ghost $ndirect int
+//@ ghost $lastdirect []byte
+//@ ghost $lastremain int
+
+//@ iface NocopyWriter.WriteDirect
+//@   params b, remainCap
+//@   ensures self.$ndirect == old(self.$ndirect) + 1 && same(self.$lastdirect, b) && self.$lastremain == remainCap
+//@   assigns self.$ndirect, self.$lastdirect, self.$lastremain
+
+//@ func BinaryProtocol.WriteBinaryNocopy
+//@   props C15
+//@   requires len(buf) >= 4 + len(v) && sizeOK(len(v)) && region(buf) != region(v)
+//@   ensures isnil(w) || len(v) < 4096 ==> ret == 4 + len(v) && encBytes(buf, 0, old(snap(v)))
+//@   ensures !isnil(w) && len(v) >= 4096 ==> ret == 4 && encI32(buf, 0, len(v)) &&
+//@           w.$ndirect == old(w.$ndirect) + 1 && same(w.$lastdirect, v) && w.$lastremain == len(buf) - 4
+//@   assigns buf[0:4+len(v)], w.$ndirect, w.$lastdirect, w.$lastremain
+
+//@ func BinaryProtocol.WriteStringNocopy
+//@   props C15
+//@   requires len(buf) >= 4 + len(v) && sizeOK(len(v))
+//@   ensures isnil(w) || len(v) < 4096 ==> ret == 4 + len(v) && encBytes(buf, 0, v)
+//@   ensures !isnil(w) && len(v) >= 4096 ==> ret == 4 && encI32(buf, 0, len(v)) &&
+//@           w.$ndirect == old(w.$ndirect) + 1 && len(w.$lastdirect) == len(v) && eqbytes(w.$lastdirect, 0, v, 0, len(v)) && w.$lastremain == len(buf) - 4
+//@   assigns buf[0:4+len(v)], w.$ndirect, w.$lastdirect, w.$lastremain
